@@ -6,7 +6,10 @@ duplicate and missing keys, empty tables, size asymmetries; SQL-created tables w
 indexed and catalog-API tables with unindexed columns), equality joins in JOIN..ON and in comma form,
 0-3 conjunctive filters on any table, select lists in any order; each batch of queries runs with
 statistics never refreshed, refreshed, and refreshed-then-data-changed, so that the cost model picks
-hash joins in both orientations, index joins and nested-loop joins.  TLC compares every recorded
+hash joins in both orientations, index joins and nested-loop joins.  Every third scenario gives all
+tables the same column names and adds select lists that differ from the plan's output by table only;
+every fifth joins two ~300-row tables of 300-byte payloads in a 32-frame pool, so the materialised
+side of the join is evicted and re-read while the join runs.  TLC compares every recorded
 answer (as a bag) with the reference."""
 import os, collections
 import vlib
@@ -26,6 +29,15 @@ def check(ctx):
     vlib.vdrive_resumable(ctx, ["sql", "c11", tr, 2000 if thorough else 150], tr, timeout=3000)
     res = vlib.validate(ctx, FAM, "SqlModelTrace", "Trace.cfg", tr, name="val-c11", timeout=3400)
     judge(ctx, res, tr, "join queries")
+    # the oracle computes join answers table by table (JoinRec); on a trace of small tables it is compared, statement
+    # by statement, with the defining cross-product form (JoinAnswerBagRef)
+    tr2 = os.path.join(ctx.work, "c11ref.ndjson")
+    vlib.vdrive_resumable(ctx, ["sql", "c11", tr2, 300 if thorough else 40], tr2, timeout=1000, env=dict(VERIF_C11_NOPRESSURE="1"))
+    res2 = vlib.validate(ctx, FAM, "SqlModelTrace", "Trace.cfg", tr2, name="val-c11ref", timeout=3000, env=dict(JOINREF="1"))
+    judge(ctx, res2, tr2, "join queries (reference form of the oracle)")
+    bad = [v for v in res2["viol"] if v["tag"] == "oracle.join"]
+    if bad:
+        raise Inconclusive("the two forms of the join oracle disagree: %s" % bad[:2])
     c = count_events(tr)
     plans = plan_kinds(tr)
     algos = collections.Counter()
@@ -33,14 +45,16 @@ def check(ctx):
         for a in ("HashJoin", "IndexJoin", "NestedLoopJoin"):
             if a in p:
                 algos[a] += n
-    if c["Join"] == 0 or algos["HashJoin"] == 0 or algos["IndexJoin"] == 0:
-        raise Inconclusive("vacuous: joins %d, algorithms %s" % (c["Join"], dict(algos)))
+    # joins whose materialised side exceeds the pool, and select lists distinguishable by table only
+    pressure = sum(1 for e in vlib.read_ndjson(tr) if e["ev"] == "Join" and e["ts"][0].startswith("m") and "HashJoin" in (e.get("plan") or ""))
+    if c["Join"] == 0 or algos["HashJoin"] == 0 or algos["IndexJoin"] == 0 or pressure == 0:
+        raise Inconclusive("vacuous: joins %d, algorithms %s, hash joins under memory pressure %d" % (c["Join"], dict(algos), pressure))
     three = sum(1 for e in vlib.read_ndjson(tr) if e["ev"] == "Join" and len(e["ts"]) == 3)
     ev = [e for e in vlib.read_ndjson(tr, limit=300) if e["ev"] == "Join"][:3]
     ctx.samples.append(dict(kind="join queries (first)", events=[{k: v for k, v in e.items() if k not in ("pb", "pa")} for e in ev]))
     vlib.write_evidence(ctx, "model_checking", dict(
         states=ctx.states, transitions=ctx.transitions, traces_validated_against_impl=ctx.traces,
-        samples=ctx.samples, exhaustive=False, events=dict(c), join_algorithms=dict(algos), three_table_joins=three,
+        samples=ctx.samples, exhaustive=False, events=dict(c), join_algorithms=dict(algos), three_table_joins=three, hash_joins_larger_than_pool=pressure,
         plans=dict(plans.most_common(15)), events_validated=ctx.events),
         ["NULL join keys are not exercised; at most one equality per pair of tables (the optimizer's supported form)",
          "plan choice is steered through statistics states and sizes, not forced with hand-built plans",
